@@ -121,10 +121,10 @@ func (g *gen) serveTables() {
 	consts["NSClient"] = want("stanza/stanza.go", "NSClient", "sv_ns_client")
 	consts["NSServer"] = want("stanza/stanza.go", "NSServer", "sv_ns_server")
 	want("stanza/stanza.go", "NSError", "sv_ns_stanza_error")
-	want("stanza/iq.go", "GetIQ", "sv_iq_get")
-	want("stanza/iq.go", "SetIQ", "sv_iq_set")
-	want("stanza/iq.go", "ResultIQ", "sv_iq_result")
-	want("stanza/iq.go", "ErrorIQ", "sv_iq_error")
+	consts["GetIQ"] = want("stanza/iq.go", "GetIQ", "sv_iq_get")
+	consts["SetIQ"] = want("stanza/iq.go", "SetIQ", "sv_iq_set")
+	consts["ResultIQ"] = want("stanza/iq.go", "ResultIQ", "sv_iq_result")
+	consts["ErrorIQ"] = want("stanza/iq.go", "ErrorIQ", "sv_iq_error")
 	want("stanza/error.go", "Cancel", "sv_err_cancel")
 	want("stanza/error.go", "ServiceUnavailable", "sv_cond_service_unavailable")
 	if f := g.parse("stream/error.go"); f != nil {
@@ -158,5 +158,139 @@ func (g *gen) serveTables() {
 			}
 			g.p("].\n")
 		}
+		g.serveConditions(f, consts)
 	}
+}
+
+// svTypDisjuncts splits a condition into its || operands and classifies each:
+// `typ == <string>` gives a type string, the identifier iqOk sets anyIQ, and
+// anything else is counted as unrecognised.
+func svTypDisjuncts(e ast.Expr, consts map[string]string) (types []string, anyIQ bool, unrecognised int) {
+	var walk func(e ast.Expr)
+	strOf := func(e ast.Expr) (string, bool) {
+		switch y := e.(type) {
+		case *ast.BasicLit:
+			if y.Kind == token.STRING {
+				s, err := strconv.Unquote(y.Value)
+				return s, err == nil
+			}
+		case *ast.CallExpr: // string(stanza.ResultIQ)
+			if id, is := y.Fun.(*ast.Ident); is && id.Name == "string" && len(y.Args) == 1 {
+				if sel, is := y.Args[0].(*ast.SelectorExpr); is {
+					s, ok := consts[sel.Sel.Name]
+					return s, ok
+				}
+			}
+		case *ast.SelectorExpr:
+			s, ok := consts[y.Sel.Name]
+			return s, ok
+		}
+		return "", false
+	}
+	walk = func(e ast.Expr) {
+		switch x := e.(type) {
+		case *ast.ParenExpr:
+			walk(x.X)
+			return
+		case *ast.BinaryExpr:
+			if x.Op == token.LOR {
+				walk(x.X)
+				walk(x.Y)
+				return
+			}
+			if x.Op == token.EQL {
+				if id, is := x.X.(*ast.Ident); is && id.Name == "typ" {
+					if s, ok := strOf(x.Y); ok {
+						types = append(types, s)
+						return
+					}
+				}
+			}
+		case *ast.Ident:
+			if x.Name == "iqOk" {
+				anyIQ = true
+				return
+			}
+		}
+		unrecognised++
+	}
+	walk(e)
+	return
+}
+
+// serveConditions reads, from handleInputStream, the condition under which the
+// table of outstanding requests (s.sentStanzas) is consulted and the condition
+// under which an IQ needs a reply (iqNeedsResp).
+func (g *gen) serveConditions(f *ast.File, consts map[string]string) {
+	fd := funcDecl(f, "handleInputStream")
+	if fd == nil || fd.Body == nil {
+		g.errs = append(g.errs, "session.go: handleInputStream not found")
+		return
+	}
+	var lookup ast.Expr
+	nLookups := 0
+	var needs ast.Expr
+	ast.Inspect(fd, func(n ast.Node) bool {
+		switch x := n.(type) {
+		case *ast.IfStmt:
+			found := false
+			ast.Inspect(x.Body, func(m ast.Node) bool {
+				if ie, is := m.(*ast.IndexExpr); is {
+					if sel, is := ie.X.(*ast.SelectorExpr); is && sel.Sel.Name == "sentStanzas" {
+						found = true
+					}
+				}
+				if _, is := m.(*ast.IfStmt); is && m != ast.Node(x) {
+					return true
+				}
+				return true
+			})
+			if found {
+				// the outermost if statement guarding the lookup
+				if lookup == nil {
+					lookup = x.Cond
+				}
+				nLookups++
+				return false
+			}
+		case *ast.AssignStmt:
+			if len(x.Lhs) == 1 && len(x.Rhs) == 1 {
+				if id, is := x.Lhs[0].(*ast.Ident); is && id.Name == "iqNeedsResp" {
+					needs = x.Rhs[0]
+				}
+			}
+		}
+		return true
+	})
+	// every use of sentStanzas in the function must sit under that one condition
+	uses := 0
+	ast.Inspect(fd, func(n ast.Node) bool {
+		if sel, is := n.(*ast.SelectorExpr); is && sel.Sel.Name == "sentStanzas" {
+			uses++
+		}
+		return true
+	})
+	emit := func(name string, e ast.Expr, what string) {
+		var types []string
+		anyIQ, unrec := false, 1
+		if e == nil {
+			g.errs = append(g.errs, "session.go: handleInputStream: "+what+" not found")
+		} else {
+			types, anyIQ, unrec = svTypDisjuncts(e, consts)
+		}
+		g.p("Definition %s_types : list bytes := [", name)
+		for i, s := range types {
+			if i > 0 {
+				g.p("; ")
+			}
+			g.p("hex \"%s\"", hexOf([]byte(s)))
+		}
+		g.p("].\nDefinition %s_any_iq : bool := %v.\nDefinition %s_unrecognised : nat := %d.\n", name, anyIQ, name, unrec)
+	}
+	g.p("(* handleInputStream: `if <cond> { ... s.sentStanzas[id] ... }` — when the table of outstanding requests is consulted *)\n")
+	emit("sv_lookup", lookup, "the condition guarding the sentStanzas lookup")
+	g.p("Definition sv_lookup_sites : nat := %d. (* if statements holding a sentStanzas lookup *)\n", nLookups)
+	g.p("Definition sv_lookup_uses : nat := %d. (* mentions of sentStanzas in handleInputStream *)\n", uses)
+	g.p("(* handleInputStream: iqNeedsResp := <cond> *)\n")
+	emit("sv_needs_resp", needs, "the assignment to iqNeedsResp")
 }
